@@ -26,6 +26,43 @@ BASE_W = {
 VIEW = {"C01": "all", "C18": "all", "C10": "func", "C11": "func", "C12": "func", "C13": "all", "C14": "func"}
 
 
+def hints_for(g):
+    """strings the walk should try to spell: quoted literals of a Lark grammar, keys / enum /
+    const strings of a JSON schema (as JSON text), literal runs of a regex"""
+    import re
+    out = set()
+    if g["kind"] == "lark":
+        for m in re.finditer(r"/((?:[^/\\\n]|\\.)+)/", g["text"]):
+            for w in re.finditer(r"[A-Za-z<>=]{2,}", m.group(1)):
+                out.add(w.group(0))
+        for m in re.finditer(r'"((?:[^"\\\n]|\\.)+)"', g["text"]):
+            try:
+                out.add(json.loads('"' + m.group(1) + '"'))
+            except Exception:
+                out.add(m.group(1))
+    elif g["kind"] == "json":
+        def walk(x):
+            if isinstance(x, dict):
+                for k, v in x.items():
+                    if k in ("properties", "$defs", "definitions") and isinstance(v, dict):
+                        for kk in v:
+                            out.add(json.dumps(kk))
+                    if k in ("enum",) and isinstance(v, list):
+                        for e in v:
+                            out.add(json.dumps(e, separators=(",", ":")))
+                    if k == "const":
+                        out.add(json.dumps(v, separators=(",", ":")))
+                    walk(v)
+            elif isinstance(x, list):
+                for v in x:
+                    walk(v)
+        walk(g.get("schema"))
+    else:
+        for m in re.finditer(r"[A-Za-z0-9 ]{2,}", g.get("text", "")):
+            out.add(m.group(0))
+    return [list(h.encode("utf-8")) for h in sorted(out) if h][:40]
+
+
 def gram_text(g):
     if g["kind"] == "json":
         return json.dumps(g.get("schema"))
@@ -37,6 +74,8 @@ def vocab_for(rng, g, choice, canonical):
         return vocabs.byte(canonical)
     if choice == "syn":
         return vocabs.synthetic(rng, gram_text(g), n_multi=rng.choice([30, 60, 120]), canonical=canonical)
+    if choice == "lang":
+        return {"kind": "lang", "canonical": canonical, "n_multi": rng.choice([40, 80, 160]), "maxlen": rng.choice([3, 5])}
     if choice == "bpe":
         return vocabs.bpe(rng.choice([300, 600, 1100]), canonical)
     raise ValueError(choice)
@@ -53,15 +92,18 @@ SLICE_SETS = [
 ]
 
 
-def build_job(prop, tier, seed, n_episodes, grammars, steps=(12, 30), vocab_choices=("byte", "syn", "bpe")):
+def build_job(prop, tier, seed, n_episodes, grammars, steps=(12, 30), vocab_choices=("byte", "syn", "bpe", "lang", "lang")):
     rng = random.Random(f"{prop}-{seed}")
     eps = []
     for i in range(n_episodes):
-        name, g = grammars[i % len(grammars)] if i < len(grammars) else rng.choice(grammars)
+        name, g = grammars[(i + seed * 17) % len(grammars)] if i < len(grammars) else rng.choice(grammars)
         canonical = rng.choice([0, 1])
         vc = rng.choice(vocab_choices)
         voc = vocab_for(rng, g, vc, canonical)
         w = dict(BASE_W[prop])
+        if name.startswith("ext:"):
+            # stop= / max_tokens= grammars do not support rollback (C12's quantifier excludes them)
+            w.update({"rollback": 0, "reset": 0, "rollback_over": 0, "shadow_after_rollback": 0})
         if prop == "C10":
             sl = rng.choice(SLICE_SETS[1:])
             cfgs = [{"vocab": voc, "vid": 0, "slices": sl}, {"vocab": voc, "vid": 0, "slices": []}]
@@ -71,6 +113,7 @@ def build_job(prop, tier, seed, n_episodes, grammars, steps=(12, 30), vocab_choi
             cfgs = [{"vocab": voc, "vid": 0, "slices": rng.choice(SLICE_SETS[:3])}]
         eps.append({"gid": name, "mode": prop, "seed": rng.randrange(1 << 30), "steps": rng.randint(*steps),
                     "gram": g, "cfgs": cfgs, "w": w, "eos_pct": rng.choice([5, 15, 30]),
+                    "hints": hints_for(g), "hint_pct": rng.choice([20, 50, 80]),
                     "vocab_kind": vc, "canonical": canonical})
     return {"episodes": eps}
 
@@ -143,10 +186,11 @@ def signature(rj):
         init = json.loads(rj["init"])
     except Exception:
         init = {}
-    try:
-        ev = json.loads(rj["event"])
-    except Exception:
-        ev = {"ev": rj["event"][:40]}
+    ev = {"ev": rj.get("ev")}
+    if init == {}:
+        import re
+        m = re.search(r'"gid":"([^"]*)"', rj["init"])
+        init = {"gid": m.group(1) if m else None}
     return {"gid": init.get("gid"), "mode": init.get("mode"), "event": ev.get("ev"), "index": rj["index"],
             "spec": rj.get("spec")}
 
